@@ -446,6 +446,16 @@ class T:
         """Vacuity guard: the formulas (with pre and facts) must be satisfiable."""
         asm = list(self.pre) + list(self.ctx.facts) + list(formulas)
         res = solve.check_sat(asm, timeout_ms or self.timeout_ms)
+        if res["status"] == "unknown":
+            # quantified preconditions (set-level tasks): a model of the finite expansion shows satisfiability
+            from . import finite
+            found = finite.search(asm, z3.BoolVal(False), None, sizes=(2, 3, 4))
+            if found is not None:
+                res = {"status": "proved", "backend": "z3 (finite expansion, universe size %d)" % found[1], "seconds": res.get("seconds")}
+        if res["status"] == "unknown":
+            res2 = solve.check_sat(asm, 90000)
+            if res2["status"] != "unknown":
+                res = res2
         return self._record(clause, "cover", res)
 
     def must_fail(self, clause="planted-false"):
